@@ -279,6 +279,45 @@ def check_pair(res, drv, orb, A, B, modes=("deterministic",), seed=0, deep=True,
         elif ok:
             lines.append(f"lc.apply {inp['a']} {inp['b']} gates={gu.gates_str(gates)}")
             meta.append(("apply", None, gates))
+    if deep and st == "ok" and n <= 6 and (gu.mask_of(A) * 7 + gu.mask_of(B)) % 4 == 0:
+        # Graph.lc_equivalent (same decision through the Graph class) and state_converter_circuit (gate list as a circuit,
+        # validated by graphiq's own compiler): must agree with is_lc_equivalent / lc_check
+        from graphiq.backends.graph.state import Graph
+        from graphiq.backends.stabilizer.functions.local_cliff_equi_check import state_converter_circuit
+
+        res.evaluations += 2
+        try:
+            gy, gq = Graph(gu.to_graph(A)).lc_equivalent(Graph(gu.to_graph(B)))
+            if bool(gy) != bool(yes) or (yes and q_bits(gq) != q_bits(Q)):
+                res.exact_break("Graph.lc_equivalent", input=inp, impl=str((gy, None if gq is None else q_bits(gq))), model=f"is_lc_equivalent: {yes}")
+        except Exception as e:  # noqa: BLE001
+            gu.viol(res, f"Graph.lc_equivalent:raises:{err_class(e)}", "Graph.lc_equivalent raised on two graph states", input=inp)
+        names = {"Hadamard": "H", "Phase": "P", "PhaseDagger": "P_dag", "SigmaX": "X", "SigmaY": "Y", "SigmaZ": "Z", "Identity": "I"}
+        try:
+            circ = state_converter_circuit(gu.to_graph(A), gu.to_graph(B), validate=True)
+            per_q = {}
+            for op in circ.sequence():
+                nm = type(op).__name__
+                if nm in names:
+                    per_q.setdefault(int(op.register), []).append(names[nm])
+            cerr2 = None
+        except Exception as e:  # noqa: BLE001
+            per_q, cerr2 = None, err_class(e)
+        if yes:
+            if cerr2 is not None:
+                gu.viol(res, f"state_converter_circuit:raises:{cerr2}", "no converter circuit for an LC-equivalent pair (or its own validation failed)", input=inp)
+            else:
+                cg = [g for k, m_, g in [(k, m_, d) for (k, m_, d) in meta if k == "check"]]
+                if cg and cg[0][2] is None and cg[0][1] is not None:
+                    want = {}
+                    for nm, q in cg[0][1]:
+                        want.setdefault(int(q), []).append(nm)
+                    if want != per_q:
+                        res.exact_break("state_converter_circuit", input=inp, impl=str(per_q), model=f"lc_check gate list {cg[0][1]}")
+                    else:
+                        res.traces_validated += 1
+        elif cerr2 != "assertion":
+            res.exact_break("state_converter_circuit:not-equivalent", input=inp, impl=str(cerr2), model="err assertion")
     if want_system:
         sysd = system_lines(A, B)
         lines.append(f"lc.system {inp['a']} {inp['b']}")
@@ -447,6 +486,54 @@ def exhaustive_pairs(res, drv, orb, n, deep_every=1, modes_dim5=True):
                        want_system=(a * N + b) % 7 == 0)
 
 
+def _n5_worker(args):
+    """all ordered pairs (a, b) of 5-vertex graphs with a in the worker's residue class, until the deadline"""
+    import time
+
+    wid, nworkers, deadline, step = args
+    sub = Result()
+    drv = gu.RDriver()
+    orb = gu.OrbitOracle(drv)
+    N = gu.n_graphs(5)
+    graphs = [gu.graph_of_mask(5, m) for m in range(N)]
+    done = 0
+    complete = True
+    # b-major order so that a run cut short by the deadline is still spread over all first graphs
+    for b in range(N):
+        if time.time() > deadline:
+            complete = False
+            break
+        for a in range(wid, N, nworkers):
+            check_pair(sub, drv, orb, graphs[a], graphs[b], modes=("deterministic",), deep=((a * N + b) % 50 == step), label="all-pairs n=5")
+            done += 1
+    sub.extra["driver_lines"] = drv.n_lines
+    drv.close()
+    return sub, done, complete
+
+
+def exhaustive_n5_sharded(ctx, res):
+    """thorough tier: every ordered pair of graphs on 5 vertices (1,048,576), sharded over worker processes, with a
+    wall-clock guard (the evidence says how many pairs were covered)"""
+    import multiprocessing as mp
+    import os
+    import time
+
+    nworkers = max(2, min(12, (os.cpu_count() or 4) - 2))
+    deadline = time.time() + float(os.environ.get("VERIF_C09_N5_BUDGET_S", "900"))
+    step = int(ctx.rng.randrange(50))
+    with mp.get_context("fork").Pool(nworkers) as pool:
+        outs = pool.map(_n5_worker, [(w, nworkers, deadline, step) for w in range(nworkers)])
+    total = 0
+    complete = True
+    for sub, done, comp in outs:
+        gu.merge_results(res, sub)
+        total += done
+        complete = complete and comp
+    res.extra["n5_pairs_covered"] = total
+    res.notes.append(("exhaustive: all 1,048,576 ordered pairs n=5" if complete else f"n=5: {total} of 1,048,576 ordered pairs within the time guard") +
+                     " (decision + Q + orbit oracle + exact model comparison; constructive outputs on every 50th)")
+
+
 def d14_witnesses(res, drv, orb):
     """the kernel-checked refutation witnesses of Properties/C09, replayed on the implementation every run"""
     k2 = gu.complete_graph(2)
@@ -516,7 +603,7 @@ def run(ctx):
     res = Result()
     res.rule = ("one evaluation = one call of an LC function of graphiq on one input (pair of graphs / graph and vertex / block); "
                 "non-trivial = at least one of the graphs has an edge; distinct by (function, mode, both adjacency matrices, arguments)")
-    drv = Driver()
+    drv = gu.RDriver()
     orb = gu.OrbitOracle(drv)
     rng = ctx.rng
     check_ops_table(res, drv)
@@ -538,14 +625,7 @@ def run(ctx):
     random_pairs(res, drv, orb, rng, 12 if ctx.quick else 150, 7, 9 if ctx.quick else 12, ("deterministic", "random"))
     check_tableau_inputs(res, drv, orb, rng, 150 if ctx.quick else 1500, 5 if ctx.quick else 6)
     if not ctx.quick:
-        # n = 5: every ordered pair of orbit-distinct representatives is too many for deep checks; all 1M pairs shallow
-        N = gu.n_graphs(5)
-        graphs = [gu.graph_of_mask(5, m) for m in range(N)]
-        step = int(ctx.rng.randrange(1, 8))
-        for a in range(N):
-            for b in range(N):
-                check_pair(res, drv, orb, graphs[a], graphs[b], modes=("deterministic",), deep=((a * N + b) % 50 == step), label="all-pairs n=5")
-        res.notes.append("exhaustive: all 1,048,576 ordered pairs n=5 (decision + Q + orbit oracle; constructive outputs on every 50th)")
+        exhaustive_n5_sharded(ctx, res)
     res.extra["driver_lines"] = drv.n_lines
     drv.close()
     return res
@@ -553,7 +633,7 @@ def run(ctx):
 
 def search(ctx, res, proof_broken):
     """proof or correspondence broke and no failing input yet: all ordered pairs n<=4 with every deep check, then random n<=6"""
-    drv = Driver()
+    drv = gu.RDriver()
     orb = gu.OrbitOracle(drv)
     for n in (2, 3, 4):
         exhaustive_pairs(res, drv, orb, n)
@@ -570,7 +650,7 @@ def replay(ctx, data):
     v = data.get("violation") or {}
     inp = v.get("input") or {}
     res = Result()
-    drv = Driver()
+    drv = gu.RDriver()
     orb = gu.OrbitOracle(drv)
     try:
         if "adj" in inp:
